@@ -6,9 +6,38 @@ import (
 
 func float64frombits(b uint64) float64 { return math.Float64frombits(b) }
 
-// c01Dotted: dotted (linked) symbols reachable from a store - fk chains, set chains, map elements of linked
-// entities.  Filled in together with the chain model (Ast/Chain.v).
+// c01Dotted: dotted (linked) symbols reachable from a store - fk chains (nonSetCompositeEntitySymbol), set
+// chains (compositeEntitySetSymbol / stackedCursor), map elements of linked entities, ids of linked entities.
 func c01Dotted(store int) []c01Sym {
+	v := func(name string, ty byte) c01Sym { return c01Sym{name: name, ty: ty, linked: -1, ids: -1, whole: true} }
+	vi := func(name string, ids int) c01Sym { return c01Sym{name: name, ty: 's', linked: -1, ids: ids, whole: true} }
+	st := func(name string, ty byte, linked int) c01Sym {
+		return c01Sym{name: name, ty: ty, set: true, linked: linked, ids: linked, whole: true}
+	}
+	switch store {
+	case 0:
+		return []c01Sym{
+			v("place.name", 's'), v("place.pop", 'i'), vi("place.id", 1), v("place.open", 'b'), v("place.tags.a", 'a'), v("place.tags.n", 'a'),
+			v("place.owner.name", 's'), v("place.org.name", 's'), v("place.owner.age", 'i'), v("place.org.size", 'i'),
+			v("place.owner.place.name", 's'), vi("place.owner", 0), vi("place.org.id", 2), v("place.owner.born", 'd'), v("place.owner.flag", 'b'),
+			st("places.name", 's', -1), st("places.id", 's', 1), st("places.pop", 'i', -1), st("places.biz", 's', -1), st("places.tags.a", 'a', -1),
+			st("places.open", 'b', -1), st("places.org.name", 's', -1), st("places.owner.name", 's', -1), st("places.orgs.name", 's', -1),
+			st("places.orgs.kinds", 's', -1), st("places.org", 's', 2), st("places.owner", 's', 0), st("place.biz", 's', -1), st("place.orgs.name", 's', -1),
+			st("place.orgs", 's', 2), st("place.visitors.name", 's', -1), st("place.visitors", 's', 0), st("friends.name", 's', -1), st("friends.age", 'i', -1),
+			st("friends.places.name", 's', -1), st("friends.places", 's', 1), st("friends.strs", 's', -1), st("friends.place.name", 's', -1),
+			st("friends.place", 's', 1), st("friends.born", 'd', -1), st("friends.whole", 'f', -1), st("friends.friends", 's', 0),
+			st("places.orgs", 's', 2), st("places.visitors", 's', 0), st("places.orgs.size", 'i', -1), st("friends.tags.b", 'a', -1),
+			st("places.owner.age", 'i', -1),
+		}
+	case 1:
+		return []c01Sym{
+			v("owner.name", 's'), v("owner.age", 'i'), v("org.name", 's'), v("org.size", 'i'), v("owner.place.name", 's'), vi("owner.id", 0),
+			v("owner.tags.a", 'a'), v("owner.flag", 'b'),
+			st("orgs.name", 's', -1), st("orgs.kinds", 's', -1), st("visitors.name", 's', -1), st("visitors.age", 'i', -1), st("visitors.strs", 's', -1),
+			st("visitors.places.name", 's', -1), st("visitors.place.name", 's', -1), st("visitors.places", 's', 1), st("visitors.friends", 's', 0),
+			st("owner.places", 's', 1), st("owner.friends", 's', 0), st("owner.strs", 's', -1), st("visitors.place", 's', 1), st("owner.friends.name", 's', -1),
+		}
+	}
 	return nil
 }
 
